@@ -2,6 +2,7 @@ import StepModel.GenCxx
 import StepModel.RegistryModel
 import StepModel.GenCxxRules
 import StepModel.AccessorKinds
+import StepModel.SelectCanBe
 /-! Line-protocol driver for the exp2cxx / dictionary model (C02).  Input: one schema in the AST line protocol
 written by vlib/schema_gen_c02.py, terminated by `end`; output: the canonical dump in the format of
 harness/h_dict.cc, followed by the mangled names the accessor test needs.  Unknown lines answer `bad-op`. -/
@@ -180,9 +181,13 @@ def dumpAll (s : Schema) : String :=
   let ents := sortByKey (d.entities.map (fun e => (e.name, "\n".intercalate (dumpEntity e :: rulesOfE e.name))))
   let tys := sortByKey (d.types.map (fun t => (t.name, "\n".intercalate (dumpType d.types t :: rulesOfT t.name))))
   let insts := sortByKey (s.entities.filterMap (fun e => (dumpInst s e).map (fun l => (e.name, l))))
+  let enames := sortStrs (s.entities.map (·.name))
+  let canbe := (sortStrs ((s.types.filter (fun t => (selectMembers s t.name).isSome)).map (·.name))).map (fun t =>
+    let pick (f : String → Bool) : String := ",".intercalate (enames.filter f)
+    s!"CANBE {t} td={pick (canBeTd s (selectFuel s) t)} name={pick (canBeName s (selectFuel s) t)} set={pick (canBeSet s (selectFuel s) t)}")
   let order := emissionOrder s (s.entities.map (·.name))
   "\n".intercalate (
-    [s!"SCHEMA {s.name} raw={outStr (prettyName (toIdent s.name))}"] ++ ents.map (·.2) ++ tys.map (·.2) ++ insts.map (·.2) ++
+    [s!"SCHEMA {s.name} raw={outStr (prettyName (toIdent s.name))}"] ++ ents.map (·.2) ++ tys.map (·.2) ++ canbe ++ insts.map (·.2) ++
     dumpNames s ++ [s!"ORDER {",".intercalate order}", "END"])
 
 def dash (s : String) : Option String := if s == "-" then none else some s
